@@ -82,6 +82,11 @@ class Result:
         self.obligations.append(dict(name=name, status=status, detail=detail, model=mdl))
 
 
+RECORD = None      # when a list: every RECORD_EVERY-th decided query is kept for the cvc5 cross-check (thorough tier)
+RECORD_EVERY = 7
+_qcount = [0]
+
+
 class Portfolio:
     """ackermannize+bit-blast tactic first (fast on QF_UFBV with address arithmetic), z3's default solver as fallback"""
 
@@ -101,6 +106,10 @@ class Portfolio:
         if r == z3.unknown:
             r = self.d.check(*cs)
             self.last = self.d
+        if RECORD is not None and r != z3.unknown:
+            _qcount[0] += 1
+            if _qcount[0] % RECORD_EVERY == 0 and len(RECORD) < 150:
+                RECORD.append((list(cs), str(r)))
         return r
 
     def model(self):
@@ -1411,3 +1420,33 @@ def lemma_byname(prog, res, cls="ELF64"):
             okv, mdl = valid(res, solver, p["pc"], z3.Or(alts_none))
             res.add(f"C20.by_name_none_iff_no_section_has_that_name({name})", "holds" if okv else "violated", model_str(mdl, 16), mdl)
     res.add(f"L8.witness.paths({name})", "holds" if counts["some"] >= 2 and counts["none"] >= 2 else "inconclusive", str(counts))
+
+
+
+def crosscheck_cvc5(res):
+    """re-decide a sample of the z3-decided queries with cvc5 (SMT-LIB2 through z3's printer); any disagreement is reported"""
+    import tempfile
+    agree = disagree = unknown = 0
+    for (cs, verdict) in (RECORD or []):
+        s = z3.Solver()
+        s.add(*cs)
+        smt = "(set-logic ALL)\n" + s.to_smt2()
+        with tempfile.NamedTemporaryFile("w", suffix=".smt2", delete=False, dir=os.path.join(VERIF, ".build")) as f:
+            f.write(smt)
+            fn = f.name
+        try:
+            r = subprocess.run(["cvc5", "--lang", "smt2", "--tlimit=20000", fn], stdout=subprocess.PIPE, stderr=subprocess.STDOUT, text=True, timeout=40)
+            out = r.stdout.strip().splitlines()
+            ans = out[0].strip() if out else "unknown"
+        except subprocess.TimeoutExpired:
+            ans = "unknown"
+        os.remove(fn)
+        if ans == verdict:
+            agree += 1
+        elif ans in ("sat", "unsat"):
+            disagree += 1
+            res.add("XCHECK.cvc5_agrees_with_z3", "violated", f"z3 says {verdict}, cvc5 says {ans} on a recorded query")
+        else:
+            unknown += 1
+    res.add("XCHECK.cvc5_agrees_with_z3", "holds" if disagree == 0 and agree > 0 else ("inconclusive" if agree == 0 else "violated"),
+            f"{agree} sampled queries re-decided identically by cvc5, {unknown} cvc5 timeouts/unknown, {disagree} disagreements")
